@@ -751,3 +751,64 @@ def c15(run, selftest=True):
         "classification, print/re-parse identity, nested lists to depth 4). B: all 128 subsets of the seven hooks x 33 item forms (word, list, non-meta list, name-value with "
         "six literal kinds and two expression kinds under 0..2 invisible groups, nested literals) x three probe behaviours: TLC checks the call-stack machine against "
         "routing-by-form; 128 real probe implementers log their calls (exactly one hook, its payload, error span). A case is one class string / one (hook set, item, mode).")
+
+
+# =====================================================================================================
+# C11 - scalar conversions
+# =====================================================================================================
+
+def simple_cfg(invs, consts=""):
+    return "SPECIFICATION Spec\nCONSTANTS\n%s  EMIT = TRUE\nINVARIANTS %s\nCHECK_DEADLOCK FALSE\n" % (consts, invs)
+
+
+def conc_consts(lo, hi):
+    return "  LoAbs = %d\n  LoNeg = %s\n  HiAbs = %d\n  HiNeg = %s\n" % (abs(lo), "TRUE" if lo < 0 else "FALSE", abs(hi), "TRUE" if hi < 0 else "FALSE")
+
+
+@plan("C11")
+def c11(run, selftest=True):
+    run.build()
+    q = run.tier == "quick"
+    # 1. the 24 integer targets over symbolic literals (every type boundary +-2, 0, beyond 128 bits) x every spelling
+    res = run.tlc("Scalars", simple_cfg("C11_Exact EmitDone"), "scalars", workers=8)
+    run.require_tlc_ok(res, "Scalars (symbolic integers)")
+    r = run.vh("replay", "scalars", res["out"], timeout=3000)
+    run.add_replay_result("scalars", r)
+    if selftest:
+        def flip(case):
+            if case["expect"]["ok"] and case["t"] == "u8" and not case["nz"]:
+                case["expect"]["ok"] = False
+                return True
+            return False
+        tagged_selftest(run, "scalars", res["out"], flip, "expect an in-range literal to be rejected", ["replay", "scalars"])
+    os.remove(res["out"])
+    # 2. the 8/16-bit targets over a concrete range, exhaustively
+    lo, hi = (-1200, 1200) if q else (-70000, 70000)
+    res = run.tlc("ScalarsConcrete", simple_cfg("C11_Exact EmitDone", conc_consts(lo, hi)), "scalars_concrete", workers=8)
+    run.require_tlc_ok(res, "ScalarsConcrete")
+    r = run.vh("replay", "scalars-concrete", res["out"], timeout=3000)
+    run.add_replay_result("scalars-concrete", r)
+    os.remove(res["out"])
+    if q:
+        # the 16-bit boundaries are outside the quick range: add windows around them
+        for lo2, hi2 in ((-32800, -32700), (32700, 32800), (65500, 65600)):
+            res = run.tlc("ScalarsConcrete", simple_cfg("C11_Exact EmitDone", conc_consts(lo2, hi2)), "scalars_concrete_w", workers=2)
+            run.require_tlc_ok(res, "ScalarsConcrete (window)")
+            r = run.vh("replay", "scalars-concrete", res["out"], timeout=3000)
+            run.add_replay_result("scalars-concrete", r)
+            os.remove(res["out"])
+    # 3. forms / literal kinds for every scalar target, float values against std
+    res = run.tlc("ScalarForms", simple_cfg("C11_Forms EmitDone"), "scalarforms", workers=2)
+    run.require_tlc_ok(res, "ScalarForms")
+    r = run.vh("replay", "scalarforms", res["out"], vlib.seed() + 1, 1500 if q else 40000, timeout=3000)
+    run.add_replay_result("scalarforms", r)
+    os.remove(res["out"])
+    run.assumptions = ["integer literals beyond TLC's 32-bit integers are symbolic (anchor, delta); the harness materialises them with exact decimal arithmetic",
+                       "float values: the oracle is str::parse::<f32/f64> on the text the specification says is parsed (string contents, or the literal's base-10 digits)",
+                       "an unquoted integer literal for a float target is left open by the property: accepted-with-exact-value and rejected-with-span both pass (counted separately)"]
+    return run.finish(
+        "model_checking",
+        "integers: 24 targets x 17 anchors (every signed/unsigned type boundary, 0, 10^40) x delta -2..2 x 29 spellings (quoted plain / plus / hex / underscore / suffix; unquoted radix 2, 8, 10, 16 x "
+        "underscores x own / foreign suffix), checked by TLC against the declarative in-range rule and converted by the real impls (value as decimal string, error span); 8/16-bit targets additionally over every "
+        "integer of a concrete range quoted and unquoted; forms: every scalar target x word / list / six literal kinds x seven string classes against the declarative accept matrix; floats: thousands of seeded "
+        "decimal / exponent / special texts and texts a hair beside f32 rounding midpoints, bit-exact against std. A case is one (target, literal, spelling).")
